@@ -767,8 +767,8 @@ SHAPE_ENTRY(sugar, 0)
 
 // =========================================================================================================
 // 6. C02, layer B: every traversal function on every node shape it can meet, with the recursive traversal of the children replaced
-// by an observing contract stub (job option stubs: dispatchVoid -> stub_void; the entries are named harness_* so that THEIR call
-// reaches the real dispatchVoid).  Tree invariant of error-free parses (read off S / P / MOREP / VALUE / VARGS / MVARGS / PORTS /
+// by an observing contract stub (job option stubs: dispatchVoid -> stub_void, dispatchArgs -> stub_args; the entries are named
+// harness_* so that THEIR calls reach the real functions).  Tree invariant of error-free parses (read off S / P / MOREP / VALUE / VARGS / MVARGS / PORTS /
 // OPORTS / ARGS / MARGS of parse.cpp), which each obligation may assume for the node it is given and for nothing below it:
 //   SPLIT(l, r): l present, r present or NULL        ASSIGN(NAME, value)         LOOP / WHILE(NAME, body)       STOP
 //   MARK(NAME, NULL)      GOTO(NAME, NULL)          IF(EQ(NAME, NUMBER), GOTO(NAME, NULL))
@@ -786,6 +786,13 @@ extern "C" void stub_void(GenState &gs, Node *c) {
   Instruction ins = Instruction::Add(nondet_int(), nondet_int(), nondet_int());
   gs.emit(ins);
 }
+// dispatchArgs() as seen from dispatchProgram() (job option stubs: dispatchArgs -> stub_args; the real one is the subject of
+// h_program_* and harness_void_null): a present parameter list declares one parameter, an absent one none; the node is not followed
+static struct ArgsCtx { int calls; Node *seen; } A;
+extern "C" void stub_args(GenState &gs, Node *c) {
+  A.calls++; A.seen = c;
+  if (c != NULL) { gs.getSymbols().argnum++; gs.getSymbols().register_state.push_back({true, false, std::string("a")}); }
+}
 static GenState void_state(int line) {
   GenState gs = fresh_state();
   gs.fs.line = line;
@@ -793,7 +800,7 @@ static GenState void_state(int line) {
   // a struct with a union) has no constant opcode for the symbolic execution, and removeTopPotBreak() would be explored both ways
   { Instruction &p = gs.out.code.u.d[0]; p.op = OpCode::PREPARE_EXEC; p.parameters.prepare.count = -1; p.parameters.prepare.index = -1; p.parameters.prepare.target = 0; gs.out.code.n = 1; }
   gs.pushSymbols(std::string("#root"));
-  V.calls = 0; V.seen[0] = V.seen[1] = V.seen[2] = NULL;
+  V.calls = 0; V.seen[0] = V.seen[1] = V.seen[2] = NULL; A.calls = 0; A.seen = NULL;
   return gs;
 }
 #define VEND(nm) ASSERT(0, "WITNESS: end of " #nm " reachable")
@@ -892,21 +899,28 @@ extern "C" void harness_void_jumps() {
   ASSERT(labs, "C03: a label statement sets its label to the next position, a reference creates an unset label; both jumps are listed");
   VEND(harness_void_jumps);
 }
-// PROGRAM f DO <body> END: dispatchVoid routes the node to dispatchProgram (removeTopPotBreak() is a no-op here: the node carries
-// the current line, so no site was emitted for it; the removal of a site is obligation h_remove_top of C08)
-extern "C" void harness_void_program() {
-  GenState gs = void_state(1);
-  Node name, hdr, b, endn, endm, bodysp, prog;
-  mknode(name, Node::Type::NAME, std::string("f"), NULL, NULL); mknode(hdr, Node::Type::SPLIT, std::string(), &name, NULL);
-  mknode(b, Node::Type::STOP, std::string(), NULL, NULL); mknode(endn, Node::Type::NAME, std::string("END"), NULL, NULL);
-  mknode(endm, Node::Type::MARK, std::string(), &endn, NULL); mknode(bodysp, Node::Type::SPLIT, std::string(), &b, &endm);
-  mknode(prog, Node::Type::PROGRAM, std::string(), &hdr, &bodysp);
-  dispatchVoid(gs, &prog);
-  ASSERT(V.calls == 1 && V.seen[0] == &bodysp && gs.errors.size() == 0 && gs.symbols.size() == 1, "C02: a definition without ports is compiled without looking at the absent PORTS node; its body goes to the traversal once");
-  ASSERT(gs.out.code.size() == 4 && code_at(gs, 1).op == OpCode::JMP && code_at(gs, 3).op == OpCode::RET, "C03: the definition is JMP, body, RET");
+// PROGRAM f <ports> DO <body> END: dispatchVoid routes the node to dispatchProgram (removeTopPotBreak() is a no-op here: the node
+// carries the current line, so no site was emitted for it; the removal of a site is obligation h_remove_top of C08).  PORTS: 0 = the
+// PORTS node is absent (PROGRAM f DO ..), 1 = IN a (OPORTS absent), 2 = IN a OUT b
+// (a macro, not a function: only functions named harness* reach the real dispatchVoid once it is stubbed)
+#define VOID_PROGRAM_BODY(PORTS) \
+  GenState gs = void_state(1); \
+  Node name, hdr, a, args, outn, ports, b, endn, endm, bodysp, prog; \
+  mknode(name, Node::Type::NAME, std::string("f"), NULL, NULL); \
+  mknode(a, Node::Type::NAME, std::string("a"), NULL, NULL); mknode(args, Node::Type::SPLIT, std::string(), &a, NULL); \
+  mknode(outn, Node::Type::NAME, std::string("b"), NULL, NULL); mknode(ports, Node::Type::SPLIT, std::string(), &args, PORTS == 2 ? &outn : NULL); \
+  mknode(hdr, Node::Type::SPLIT, std::string(), &name, PORTS >= 1 ? &ports : NULL); \
+  mknode(b, Node::Type::STOP, std::string(), NULL, NULL); mknode(endn, Node::Type::NAME, std::string("END"), NULL, NULL); \
+  mknode(endm, Node::Type::MARK, std::string(), &endn, NULL); mknode(bodysp, Node::Type::SPLIT, std::string(), &b, &endm); \
+  mknode(prog, Node::Type::PROGRAM, std::string(), &hdr, &bodysp); \
+  dispatchVoid(gs, &prog); \
+  ASSERT(A.calls == 1 && A.seen == (PORTS >= 1 ? &args : NULL), "C02: a definition hands its parameter list - NULL when the PORTS node is absent - to dispatchArgs and dereferences no absent node"); \
+  ASSERT(V.calls == 1 && V.seen[0] == &bodysp && gs.errors.size() == 0 && gs.symbols.size() == 1, "C02: the body of a definition goes to the traversal exactly once; no error is recorded"); \
+  ASSERT(gs.out.code.size() == 4 && code_at(gs, 1).op == OpCode::JMP && code_at(gs, 3).op == OpCode::RET && code_at(gs, 3).parameters.ret.source == (PORTS >= 1 ? 1 : 0), "C03: the definition is JMP, body, RET(register of the OUT variable or of x0)"); \
   ASSERT(gs.out.line_info.size() == 0 && gs.out.potential_breaks.size() == 0 && gs.funcAddrs.size() == 1, "C02: no breakpoint site is left behind; the definition is recorded");
-  VEND(harness_void_program);
-}
+extern "C" void harness_void_program() { VOID_PROGRAM_BODY(0) VEND(harness_void_program); }
+extern "C" void harness_void_program_in() { VOID_PROGRAM_BODY(1) VEND(harness_void_program_in); }
+extern "C" void harness_void_program_inout() { VOID_PROGRAM_BODY(2) VEND(harness_void_program_inout); }
 // node kinds the parser never puts in statement / value position: reported as MALFORMED_AST, never dereferenced
 extern "C" void harness_void_malformed() {
   GenState gs = void_state(1);
